@@ -1,4 +1,176 @@
-import FiddleModel.Model.ArgStore
+/-
+C03 — attribute, index and slice edits behave like edits to a bound-argument list.
+
+Model: `Model/ArgStore.lean` (mirror of config.py / signatures.py). Helper lemmas:
+`Lemmas/Dict.lean`, `Lemmas/View.lean`, `Lemmas/Ops.lean`, `Lemmas/History.lean`.
+-/
+import FiddleModel.Lemmas.View
+import FiddleModel.Lemmas.History
+
 namespace Fiddle
-theorem C03_placeholder : True := trivial
+open Sig
+
+/-! ### The positional view is a Python list computed from the store -/
+
+/-- **`cfg[:]` is a function of what is stored.** For every signature whose positional storage
+    keys are distinct, and every store: the list `__getitem__` indexes into consists of one slot
+    per positional parameter — its own stored value, else its default, else `NO_VALUE` — (the
+    fixed-length prefix) followed by the contiguous `*args` entries. -/
+theorem C03_view_is_lookup (s : Sig) (c : Cfg) (wf : ViewWF s) :
+    s.allPositional c.args = viewSlots s c.args s 0 ++
+      (match s.vpStart with
+       | some st => varRun c.args c.args.length st
+       | none => []) :=
+  allPositional_eq s c.args wf
+
+/-- The fixed prefix has one slot per positional parameter, whatever is stored. -/
+theorem viewSlots_length (s : Sig) (d d' : Dict Val) :
+    ∀ ps i, (viewSlots s d ps i).length = (viewSlots s d' ps i).length := by
+  intro ps
+  induction ps with
+  | nil => intro i; rfl
+  | cons p ps ih =>
+    intro i
+    simp only [viewSlots]
+    split <;> simp [ih]
+
+/-- **Fixed-length prefix**: no edit history can change the number of non-variadic slots of
+    the view. -/
+theorem C03_prefix_fixed_length (s : Sig) (c : Cfg) (ops : List Op) :
+    (viewSlots s (Cfg.run s c ops).args s 0).length = (viewSlots s c.args s 0).length :=
+  viewSlots_length s _ _ s 0
+
+/-- `cfg[i]` is Python list indexing (negative indices from the end, out of range raises) of
+    the view. -/
+theorem C03_getitem_is_list_index (s : Sig) (c : Cfg) (i : Int) :
+    c.getItem s i = (match Py.getIdx (c.posView s) i with
+      | some v => .ok v
+      | none => .error .indexError) := rfl
+
+/-- Slots depend only on the lookups of the positional keys. -/
+theorem viewSlots_congr (s : Sig) (d d' : Dict Val) :
+    ∀ ps i, (∀ k ∈ posKeys ps i, d.get? k = d'.get? k) → viewSlots s d ps i = viewSlots s d' ps i := by
+  intro ps
+  induction ps with
+  | nil => intro i _; rfl
+  | cons p ps ih =>
+    intro i h
+    simp only [viewSlots, posKeys] at h ⊢
+    cases hk : posKey p i with
+    | none => simp only [hk] at h ⊢; exact ih (i + 1) h
+    | some k =>
+      simp only [hk] at h ⊢
+      rw [h k (by simp), ih (i + 1) (fun k' hk' => h k' (by simp [hk']))]
+
+theorem varRun_congr (d d' : Dict Val) :
+    ∀ fuel i, (∀ j : Nat, d.get? (.idx j) = d'.get? (.idx j)) → varRun d fuel i = varRun d' fuel i := by
+  intro fuel
+  induction fuel with
+  | zero => intro i _; rfl
+  | succ fuel ih => intro i h; simp only [varRun, h i, ih (i + 1) h]
+
+/-! ### Attribute edits behave like a dict restricted to the signature -/
+
+/-- A name is accepted by `setattr` exactly when it names a keyword-capable parameter, or the
+    callable takes `**kwargs` and the name is not a positional-only / `*args` parameter. -/
+theorem C03_setattr_rejected_iff (s : Sig) (c : Cfg) (n : String) (v : Val) :
+    (∃ c', c.setAttr s n v = .ok c') ↔ s.validName n = true := by
+  unfold Cfg.setAttr
+  constructor
+  · intro ⟨c', h⟩; split at h
+    · assumption
+    · cases h
+  · intro h; simp [h]
+
+/-- Unknown names are rejected when there is no `**kwargs`; positional-only and `*args`
+    parameters are rejected always. -/
+theorem C03_invalid_names_rejected (s : Sig) (c : Cfg) (n : String) (v : Val) :
+    (s.find? n = none ∧ s.hasVk = false) ∨
+    (∃ p, s.find? n = some p ∧ (p.kind = .po ∨ p.kind = .vp)) →
+    c.setAttr s n v = .error .attributeError := by
+  intro h
+  unfold Cfg.setAttr Sig.validName
+  rcases h with ⟨hn, hv⟩ | ⟨p, hp, hk⟩
+  · simp [hn, hv]
+  · rcases hk with hk | hk <;> simp [hp, hk]
+
+/-- **Set then get**: a plain value assigned by name is what the store holds for that name,
+    and no other key changes. -/
+theorem C03_setattr_effect (s : Sig) (c c' : Cfg) (n : String) (m : Nat)
+    (h : c.setAttr s n (.v m) = .ok c') :
+    c'.args.get? (.name n) = some (.v m) ∧ ∀ k, k ≠ .name n → c'.args.get? k = c.args.get? k := by
+  unfold Cfg.setAttr at h
+  split at h
+  · cases h
+    simp only [Cfg.setValue, log_args]
+    exact ⟨Dict.get?_set_same _ _ _, fun k hk => Dict.get?_set_other _ _ _ _ (fun e => hk e.symm)⟩
+  · cases h
+
+/-- After a successful `setattr`, `getattr` returns the value. -/
+theorem C03_setattr_getattr (s : Sig) (c c' : Cfg) (n : String) (m : Nat)
+    (h : c.setAttr s n (.v m) = .ok c') : c'.getAttr s n = .ok (.v m) := by
+  have := (C03_setattr_effect s c c' n m h).1
+  simp [Cfg.getAttr, this]
+
+/-- `del cfg.x`: succeeds exactly when `x` is set; afterwards it is unset and nothing else
+    changed (given a well-formed dict). -/
+theorem C03_delattr_effect (s : Sig) (c c' : Cfg) (n : String) (hn : c.args.NodupKeys)
+    (h : c.delAttr s n = .ok c') :
+    c.args.contains (.name n) = true ∧ c'.args.get? (.name n) = none ∧
+    ∀ k, k ≠ .name n → c'.args.get? k = c.args.get? k := by
+  unfold Cfg.delAttr Cfg.delValue at h
+  split at h
+  · rename_i c'' hd
+    cases h
+    split at hd
+    · rename_i hc
+      cases hd
+      simp only [log_args]
+      exact ⟨hc, Dict.get?_del_same _ _ hn, fun k hk => Dict.get?_del_other _ _ _ (fun e => hk e.symm)⟩
+    · cases hd
+  · cases h
+
+theorem C03_delattr_unset_rejected (s : Sig) (c : Cfg) (n : String)
+    (h : c.args.contains (.name n) = false) : c.delAttr s n = .error .attributeError := by
+  simp [Cfg.delAttr, Cfg.delValue, h]
+
+/-- **Frame for the view**: an edit of a key that is neither a positional storage key nor an
+    int key leaves `cfg[:]` exactly as it was (keyword-only parameters and `**kwargs` entries
+    live outside the positional view). -/
+theorem C03_named_edit_keeps_view (s : Sig) (c c' : Cfg) (n : String) (m : Nat) (wf : ViewWF s)
+    (hk : Key.name n ∉ posKeys s 0) (h : c.setAttr s n (.v m) = .ok c') :
+    s.allPositional c'.args = s.allPositional c.args ∨ c'.args.length ≠ c.args.length := by
+  by_cases hl : c'.args.length = c.args.length
+  · left
+    have he := (C03_setattr_effect s c c' n m h).2
+    rw [allPositional_eq s _ wf, allPositional_eq s _ wf, hl]
+    congr 1
+    · exact viewSlots_congr s _ _ s 0 (fun k hkm => he k (fun e => hk (e ▸ hkm)))
+    · cases s.vpStart with
+      | none => rfl
+      | some st => exact varRun_congr _ _ _ _ (fun j => he _ (by intro e; cases e))
+  · right; exact hl
+
+/-! ### The store stays a well-formed dict through every history -/
+
+/-- After any history of edits (valid or rejected) the argument dict still has pairwise
+    distinct keys: the positional view and the named view are always well defined. -/
+theorem C03_store_wellformed (s : Sig) (c0 : Cfg) (ops : List Op) (h0 : HistInv c0) :
+    (Cfg.run s c0 ops).args.NodupKeys :=
+  (Cfg.run_closed HistInv_closed s ops c0 h0).nodup
+
+/-- A rejected edit leaves the state exactly as it was (the model's operations are functions
+    into `Except`, and `run` keeps the old state on error). -/
+theorem C03_rejected_edit_no_effect (s : Sig) (c : Cfg) (o : Op) (e : Err)
+    (h : c.applyOp s o = .error e) : Cfg.run s c [o] = c := by
+  simp [Cfg.run, h]
+
+/-! ### Non-vacuity -/
+
+example : ViewWF [⟨"a", .po, true⟩, ⟨"p", .pk, false⟩, ⟨"args", .vp, false⟩, ⟨"k", .ko, true⟩] :=
+  viewWF_of_viewWFB _ (by decide)
+
+example : (construct [⟨"a", .po, true⟩, ⟨"p", .pk, false⟩, ⟨"args", .vp, false⟩] [.v 1, .v 2, .v 3] []).isSome = true := by
+  decide
+
 end Fiddle
